@@ -54,11 +54,38 @@ package oci
 //@   ensures [C07:removed] result1 == nil ==> !(K(target) in s.graph.nodes)
 //@   modifies map[string]ocispec.Descriptor, map[digest.Digest]set.Set[string], map[string]unit, map[descriptor.Descriptor]ocispec.Descriptor, map[descriptor.Descriptor]set.Set[descriptor.Descriptor], map[descriptor.Descriptor]unit, elems[ocispec.Descriptor], ghost.blobCount, ghost.indexVersion, ocispec.Index.Manifests, new map[string]string, alloc
 //@
+//@ // ---- saving the index: index.json is exactly the projection of the resolver (C08)
+//@ // every reference that is not a digest string becomes one entry carrying the reference name;
+//@ // every digest-only entry whose digest has no such reference becomes one entry without it;
+//@ // nothing else is written.
+//@ ghost local siSrc(i int) string
+//@ ghost local siPos(r string) int
+//@ ghost local siTagOf(d digest.Digest) string
+//@ pure isTagRef(refMap map[string]ocispec.Descriptor, r string) bool = r in refMap && r != refMap[r].Digest
+//@ pure tagEntry(refMap map[string]ocispec.Descriptor, e ocispec.Descriptor, r string) bool = isTagRef(refMap, r) && K(e) == K(refMap[r]) && e.Annotations != nil && alive(e.Annotations) && "org.opencontainers.image.ref.name" in e.Annotations && e.Annotations["org.opencontainers.image.ref.name"] == r
+//@ pure digestEntry(refMap map[string]ocispec.Descriptor, e ocispec.Descriptor, r string) bool = r in refMap && r == refMap[r].Digest && K(e) == K(refMap[r]) && !("org.opencontainers.image.ref.name" in e.Annotations)
 //@ func (*Store).saveIndex
-//@   trusted
+//@   requires [ri] storeRI(s) && s.index != nil
+//@   call writeIndexFile set indexVersion(s) = indexVersion(s) + (result == nil ? 1 : 0)
+//@   loop 0 invariant [objects] storeRI(s) && s.index != nil && s.index == old(s.index) && refMap != nil && alive(refMap) && tagged != nil && alive(tagged) && s.tagResolver == old(s.tagResolver) && (forall r string :: (r in refMap) == old(r in s.tagResolver.index) && (r in refMap ==> refMap[r] == old(s.tagResolver.index[r])))
+//@   loop 0 invariant [C08:every-visited-tag-written] forall r string :: r in $visited && isTagRef(refMap, r) ==> 0 <= siPos(r) && siPos(r) < len(manifests) && siSrc(siPos(r)) == r
+//@   loop 0 invariant [C08:entries-so-far-are-tag-entries] forall i int :: 0 <= i && i < len(manifests) ==> siSrc(i) in $visited && tagEntry(refMap, manifests[i], siSrc(i))
+//@   loop 0 invariant [C08:tagged-digests] (forall r string :: r in $visited && isTagRef(refMap, r) ==> refMap[r].Digest in tagged) && (forall d digest.Digest :: d in tagged ==> isTagRef(refMap, siTagOf(d)) && refMap[siTagOf(d)].Digest == d)
+//@   loop 0 backedge set siSrc(len(manifests)) = $key
+//@   loop 0 backedge set siPos($key) = len(manifests)
+//@   loop 0 backedge set siTagOf(refMap[$key].Digest) = (isTagRef(refMap, $key) ? $key : siTagOf(refMap[$key].Digest))
+//@   loop 1 invariant [objects] storeRI(s) && s.index != nil && s.index == old(s.index) && refMap != nil && alive(refMap) && tagged != nil && alive(tagged) && s.tagResolver == old(s.tagResolver) && (forall r string :: (r in refMap) == old(r in s.tagResolver.index) && (r in refMap ==> refMap[r] == old(s.tagResolver.index[r])))
+//@   loop 1 invariant [C08:every-tag-written] forall r string :: isTagRef(refMap, r) ==> 0 <= siPos(r) && siPos(r) < len(manifests) && siSrc(siPos(r)) == r
+//@   loop 1 invariant [C08:tagged-digests] (forall r string :: isTagRef(refMap, r) ==> refMap[r].Digest in tagged) && (forall d digest.Digest :: d in tagged ==> isTagRef(refMap, siTagOf(d)) && refMap[siTagOf(d)].Digest == d)
+//@   loop 1 invariant [C08:every-visited-untagged-digest-entry-written] forall r string :: r in $visited && r in refMap && r == refMap[r].Digest && !(refMap[r].Digest in tagged) ==> 0 <= siPos(r) && siPos(r) < len(manifests) && siSrc(siPos(r)) == r
+//@   loop 1 invariant [C08:entries-are-tag-or-untagged-digest-entries] forall i int :: 0 <= i && i < len(manifests) ==> tagEntry(refMap, manifests[i], siSrc(i)) || (digestEntry(refMap, manifests[i], siSrc(i)) && !(refMap[siSrc(i)].Digest in tagged))
+//@   loop 1 backedge set siSrc(len(manifests)) = $key
+//@   loop 1 backedge set siPos($key) = (isTagRef(refMap, $key) ? siPos($key) : len(manifests))
+//@   ensures [C08:index-is-the-projection-of-the-resolver] result == nil ==> (forall r string :: old(r in s.tagResolver.index) && r != old(s.tagResolver.index[r]).Digest ==> 0 <= siPos(r) && siPos(r) < len(s.index.Manifests) && siSrc(siPos(r)) == r)
+//@   ensures [C08:nothing-else-is-written] result == nil ==> (forall i int :: 0 <= i && i < len(s.index.Manifests) ==> old(siSrc(i) in s.tagResolver.index) && K(s.index.Manifests[i]) == K(old(s.tagResolver.index[siSrc(i)])))
 //@   ensures result == nil ==> indexVersion(s) == old(indexVersion(s)) + 1
 //@   ensures result != nil ==> indexVersion(s) == old(indexVersion(s))
-//@   modifies ghost.indexVersion, alloc, ocispec.Index.Manifests, elems[ocispec.Descriptor], new map[string]string, new map[string]unit, new map[string]ocispec.Descriptor
+//@   modifies ghost.indexVersion, alloc, ocispec.Index.Manifests, elems[ocispec.Descriptor], new map[string]string, new map[string]unit, new map[string]ocispec.Descriptor, new map[digest.Digest]unit
 //@
 //@ func registry.Referrers
 //@   trusted
@@ -79,8 +106,22 @@ package oci
 //@   modifies map[descriptor.Descriptor]ocispec.Descriptor@m.nodes, map[descriptor.Descriptor]set.Set[descriptor.Descriptor]@m.predecessors+m.successors, map[descriptor.Descriptor]unit, elems[ocispec.Descriptor], elems[byte], alloc
 //@
 //@ func deleteAnnotationRefName
-//@   ensures [C08:content-kept] result.Digest == desc.Digest && result.MediaType == desc.MediaType && result.Size == desc.Size
+//@   ensures [C08:content-kept] result.Digest == desc0.Digest && result.MediaType == desc0.MediaType && result.Size == desc0.Size
+//@   ensures [C08:reference-name-removed] !("org.opencontainers.image.ref.name" in result.Annotations)
+//@   ensures [C08:descriptor-without-reference-name-returned-as-is] !("org.opencontainers.image.ref.name" in desc0.Annotations) ==> result == desc0
+//@   ensures [C08:other-annotations-kept] len(desc0.Annotations) > 1 ==> (forall k string :: k != "org.opencontainers.image.ref.name" ==> (k in result.Annotations) == (k in desc0.Annotations) && (k in desc0.Annotations ==> result.Annotations[k] == desc0.Annotations[k]))
+//@   loop 0 invariant [objects] annotations != nil && alive(annotations) && !old(alive(annotations)) && desc.Annotations == desc0.Annotations
+//@   loop 0 invariant [C08:copied-so-far] (forall k string :: k in $visited && k != "org.opencontainers.image.ref.name" ==> k in annotations && annotations[k] == desc0.Annotations[k]) && (forall k string :: k in annotations ==> k in $visited && k in desc0.Annotations && k != "org.opencontainers.image.ref.name" && annotations[k] == desc0.Annotations[k])
 //@   modifies alloc, new map[string]string
+//@
+//@ // ---- loading an index: every entry is registered by digest, and by its reference name when it has one (C08)
+//@ ghost local liDigestTagged bool
+//@ func loadIndex
+//@   requires [wf] index != nil && tagger != nil && graph != nil && alive(graph) && graphRI(graph) && fetcher != nil
+//@   loop 0 invariant [objects] index != nil && tagger != nil && graph != nil && alive(graph) && graphRI(graph)
+//@   call tagger.Tag#0 requires [C08:entry-registered-by-digest-without-reference-name] args.reference == desc.Digest && K(args.desc) == K(desc) && !("org.opencontainers.image.ref.name" in args.desc.Annotations)
+//@   call tagger.Tag#1 requires [C08:named-entry-registered-under-its-name-with-the-annotated-descriptor] args.reference == lookup(desc.Annotations, "org.opencontainers.image.ref.name") && args.reference != "" && args.desc == desc
+//@   call IndexAll requires [C07,C08:entry-graph-indexed] K(args.node) == K(desc) && args.fetcher == fetcher && args.m == graph
 //@
 //@ pure plainTag(refMap map[string]ocispec.Descriptor, r string) bool = r in refMap && (forall q string :: q in refMap ==> r != refMap[q].Digest)
 //@ func (*Store).gcIndex
@@ -167,6 +208,8 @@ package oci
 //@
 //@ func (*Store).writeIndexFile
 //@   requires [wf] s != nil
+//@   opt trust-frame
+//@   modifies alloc, elems[byte], elems[any], ghost.fileMode
 //@   call os.WriteFile requires [C10:index-replaced-by-rename-only] args.name != s.indexPath
 //@   call os.Rename requires [C10:index-replaced-by-rename-only] args.newpath == s.indexPath && wroteTemp && args.oldpath == tempName
 //@   call os.WriteFile set wroteTemp = result == nil
